@@ -27,7 +27,7 @@ Qed.
 Lemma statement_refuted : ~ accepted_programs_do_not_go_wrong.
 Proof.
   intro H. destruct loop_cap_refutes as [P [g [fd [vs [fuel [A [_ [B [C D]]]]]]]]].
-  specialize (H P g fd vs fuel A B C). rewrite D in H. simpl in H. discriminate.
+  specialize (H P A g fd vs fuel B C). rewrite D in H. simpl in H. discriminate.
 Qed.
 
 Lemma mi_sub_trans : sub_trans mi_prog.
